@@ -62,6 +62,7 @@ def settle_spec(so):
 @contract("flumine/simulation/simulatedorder.py::SimulatedOrder.profit", tags=["C08"])
 def _(self) -> REAL:
     requires("simulated_order_link", self.order._simulated and self.order.simulated == self)
+    requires("abstract_property_link", self.order.average_price_matched == self.average_price_matched)  # see BetfairOrder.average_price_matched below
     requires("sides", self.order.side == "BACK" or self.order.side == "LAY")
     requires("matched_nonneg", self.size_matched >= 0)
     requires("ew_divisor", implies(self.order.market_type == "EACH_WAY", self.order.each_way_divisor is not None and self.order.each_way_divisor != 0))
@@ -71,7 +72,44 @@ def _(self) -> REAL:
 
 @lemma("settlement_opposite_sides", tags=["C08"])
 def _(m: REAL, a: REAL, n: INT, d: REAL, status: Opt(ATOM), line_result: Opt(REAL)):
-    requires(m >= 0 and n >= 1 and d != 0 and exists_int(lambda k: m * 100 == k))  # matched sizes are on the penny grid (D1; wap rounds to 2dp)
+    requires(m >= 0 and n >= 1 and d != 0 and is_int(m * 100))  # matched sizes are on the penny grid (D1; wap rounds to 2dp)
     ensures("plain_back_is_minus_lay", settle_plain("BACK", m, a, status, n) == -settle_plain("LAY", m, a, status, n))
     ensures("each_way_back_is_minus_lay", settle_each_way("BACK", m, a, status, d) == -settle_each_way("LAY", m, a, status, d))
     ensures("line_back_is_minus_lay", settle_line("BACK", m, a, line_result) == -settle_line("LAY", m, a, line_result))
+
+
+# ----------------------------------------------------------------------------- Market.cleared
+inline("flumine/markets/blotter.py::Blotter.client_orders")
+struct("ClearedMarket", marketId=ATOM, eventId=Opt(ATOM), eventTypeId=Opt(ATOM), customerStrategyRef=ATOM, lastMatchedDate=Opt(REAL),
+       placedDate=Opt(REAL), settledDate=Opt(REAL), betCount=INT, betOutcome=ATOM, commission=REAL, profit=REAL, absent_keyerror=False)
+
+
+def client_view(market, client):
+    return market.blotter._client_orders[client]
+
+
+@contract("flumine/markets/market.py::Market.cleared", tags=["C08"])
+def _(self, client: Ref("BaseClient")) -> Ref("ClearedMarket"):
+    requires("commission_rate", client.commission_base >= 0)
+    modifies_map(self.blotter._client_orders)  # a defaultdict: looking up an unknown client inserts an empty list
+    ensures("profit_is_sum_over_matched_orders",
+            result["profit"] == round(sum([o.profit for o in old(client_view(self, client)) if o.size_matched > 0]), 2)
+            if old(client in self.blotter._client_orders) else result["profit"] == 0)
+    ensures("bet_count", result["betCount"] == (len([o for o in old(client_view(self, client)) if o.size_matched > 0])
+                                                if old(client in self.blotter._client_orders) else 0))
+    ensures("commission_only_on_net_win", result["commission"] == round(max(result["profit"] * client.commission_base, 0), 2)
+            and implies(result["profit"] <= 0, result["commission"] == 0))
+
+
+# the abstract properties of a simulated order are the simulator's figures (link between the abstract fields of
+# a_schema.py and the property bodies, checked on the bodies themselves)
+@contract("flumine/order/order.py::BetfairOrder.average_price_matched", tags=["C08", "C16"])
+def _(self) -> REAL:
+    requires("simulated", self._simulated)
+    ensures("is_the_simulators_figure", result == self.simulated.average_price_matched)
+
+
+@contract("flumine/order/order.py::BetfairOrder.size_matched", tags=["C08", "C16"])
+def _(self) -> REAL:
+    requires("simulated", self._simulated)
+    ensures("is_the_simulators_figure", result == self.simulated.size_matched)
